@@ -78,3 +78,16 @@ Lemma EqualFold_Classify : forall a b, strings_EqualFold a b = Classify.equal_fo
 Proof. intros. unfold strings_EqualFold, Classify.equal_fold. now rewrite !ToLower_Classify. Qed.
 Lemma strings_Join_Classify : forall l sep, strings_Join l sep = Classify.join sep l.
 Proof. unfold strings_Join. induction l as [|x l IH]; intros sep; simpl; auto; try (destruct l; auto; now rewrite <- IH). Qed.
+
+(* strconv.ParseBool is Model/FlagPkg.parse_bool *)
+From Mage Require Model.FlagPkg.
+Lemma ParseBool_FlagPkg : forall s,
+  strconv_ParseBool s = match FlagPkg.parse_bool s with
+                        | Some b => (b, None)
+                        | None => (false, Some ("strconv.ParseBool: parsing " ++ s ++ ": invalid syntax")%string)
+                        end.
+Proof.
+  intros s. unfold strconv_ParseBool, FlagPkg.parse_bool, FlagPkg.in_strs. cbn [existsb].
+  repeat match goal with |- context [String.eqb s ?l] => destruct (String.eqb_spec s l); [subst; reflexivity|] end.
+  reflexivity.
+Qed.
